@@ -119,7 +119,19 @@ def canon(v, exact=True):
         return ("d", tuple((str(a), canon(b, exact)) for a, b in v.items()))
     if k == "set":
         return ("set", tuple(sorted((canon(x, exact) for x in v), key=repr)))
-    return ("o", type(v).__name__, repr(v))
+    # unknown object (e.g. a program or a parser object cached at module level by a change): canonicalise its
+    # attributes rather than its repr, which would contain a memory address and make every state look new
+    if _depth[0] < 4 and hasattr(v, "__dict__"):
+        _depth[0] += 1
+        try:
+            return ("o", type(v).__name__, tuple((k, canon(x, exact)) for k, x in sorted(vars(v).items()) if not callable(x)))
+        finally:
+            _depth[0] -= 1
+    import re as _re
+    return ("o", type(v).__name__, _re.sub(r"0x[0-9a-fA-F]+", "0x", repr(v))[:200])
+
+
+_depth = [0]
 
 
 def close(a, b, rtol=1e-12, atol=1e-300):
